@@ -7,10 +7,14 @@
 //   setup  : ops executed by one thread alone before the program threads start ("-" = none)
 //   program: threads '|', ops ',':  A allocate | F<i> deallocate the i-th id kept by this thread (newest = 0)
 //            E emplace | T<k> take_released(k-th id handed out by emplace) | R finish_released(oldest taken)
+//            RAII layer (every thread has 3 Accessor objects "holders", default constructed):
+//            K<h>.<k> holder[h] = box.take(k-th id) | M<h>.<g> holder[h] = std::move(holder[g]) (h = g: self assignment)
+//            C<h>.<g> destroy the (empty) holder[h] and move-construct it from holder[g] | D<h> destroy holder[h]
 //   choices: strategy 2 replay list, items "c" or "c*n"
 //   script : ',' separated: b<k> spawn k threads at once | s<k> spawn k threads one after the other, each at
 //            quiescence | x<k> let the k oldest live threads exit and join them | q for_each check at quiescence
 // stdout: <cid> ok steps=<n> | <outcome> | <monitor verdicts name=0/1>
+#include <optional>
 #include "shim/prelude.h"
 #include "babylon/concurrent/deposit_box.h"
 #include "babylon/concurrent/id_allocator.h"
@@ -38,14 +42,18 @@ static std::vector<int> parse_choices(const std::string& s) {
   }
   return out;
 }
-struct Op { char k; long arg; std::string res; };
+struct Op { char k; long arg; std::string res; long arg2 = 0; };
 static std::vector<std::vector<Op>> parse_prog(const std::string& setup, const std::string& prog) {
   std::vector<std::vector<Op>> threads;
   std::vector<std::string> ths; ths.push_back(setup == "-" ? "" : setup);
   { std::stringstream ss(prog); std::string th; while (std::getline(ss, th, '|')) ths.push_back(th == "-" ? "" : th); }
   for (auto& th : ths) {
     std::vector<Op> ops;
-    for (auto& o : split(th, ',')) ops.push_back(Op{o[0], o.size() > 1 ? atol(o.c_str() + 1) : 0, ""});
+    for (auto& o : split(th, ',')) {
+      Op op{o[0], o.size() > 1 ? atol(o.c_str() + 1) : 0, ""};
+      size_t dot = o.find('.'); if (dot != std::string::npos) op.arg2 = atol(o.c_str() + dot + 1);
+      ops.push_back(op);
+    }
     threads.push_back(ops);
   }
   return threads;
@@ -132,6 +140,18 @@ static void run_box(const char* cid, unsigned long long seed, int strategy, cons
   std::map<uint32_t, int> slot_owner;                   // slot value -> index of the id that occupies it
   std::vector<std::vector<size_t>> taken(threads.size());
   uint64_t serial = 1000; bool dup = false, payload_ok = true, stale_ok = true;
+  // holders: the real Accessor objects plus, as `shadow`, the index of the id each one is supposed to hold (-1: none)
+  struct Holder { std::optional<Box::Accessor> a; long shadow = -1; };
+  std::vector<std::vector<Holder>> holders(threads.size());
+  for (auto& hs : holders) { hs.resize(3); for (auto& H : hs) H.a.emplace(); }
+  // the item H is supposed to hold is about to be given back by the next statement
+  auto expect_finish = [&](Holder& H) {
+    if (H.shadow < 0) return;
+    size_t k = (size_t)H.shadow;
+    if (!(bool)*H.a || **H.a != payload[k]) payload_ok = false;   // a held item was lost / overwritten
+    slot_owner.erase(ids[k].value);
+    H.shadow = -1;
+  };
   auto exec = [&](size_t t, Op& op) {
     if (op.k == 'E') {
       uint64_t p = ++serial;
@@ -153,6 +173,32 @@ static void run_box(const char* cid, unsigned long long seed, int strategy, cons
       slot_owner.erase(ids[k].value);
       box->finish_released(ids[k]);
       op.res = "r";
+    } else if (op.k == 'K') {
+      if ((size_t)op.arg2 >= ids.size()) { op.res = "-"; return; }
+      Holder& H = holders[t][op.arg % 3]; size_t k = op.arg2; attempts[k]++;
+      expect_finish(H);                                  // what H held dies with the temporary
+      *H.a = box->take(ids[k]);
+      bool ok = (bool)*H.a;
+      if (ok) { wins[k]++; if (**H.a != payload[k]) payload_ok = false; H.shadow = (long)k; }
+      op.res = ok ? "1" : "0";
+    } else if (op.k == 'M') {
+      Holder& H = holders[t][op.arg % 3]; Holder& G = holders[t][op.arg2 % 3];
+      *H.a = std::move(*G.a);
+      if (&H != &G) std::swap(H.shadow, G.shadow);
+      if (H.shadow >= 0 && (!(bool)*H.a || **H.a != payload[H.shadow])) payload_ok = false;
+      op.res = "a";
+    } else if (op.k == 'C') {
+      Holder& H = holders[t][op.arg % 3]; Holder& G = holders[t][op.arg2 % 3];
+      if (&H == &G || H.shadow >= 0) { op.res = "-"; return; }
+      H.a.reset(); H.a.emplace(std::move(*G.a));
+      H.shadow = G.shadow; G.shadow = -1;
+      if (H.shadow >= 0 && (!(bool)*H.a || **H.a != payload[H.shadow])) payload_ok = false;
+      op.res = "a";
+    } else if (op.k == 'D') {
+      Holder& H = holders[t][op.arg % 3];
+      expect_finish(H);
+      H.a.reset(); H.a.emplace();
+      op.res = "a";
     } else op.res = "?";
   };
   for (auto& op : threads[0]) exec(0, op);
@@ -172,6 +218,7 @@ static void run_box(const char* cid, unsigned long long seed, int strategy, cons
     if (p) { wins[k]++; if (*p != payload[k]) payload_ok = false; slot_owner.erase(ids[k].value); box->finish_released(ids[k]); }
   }
   for (size_t t = 0; t < taken.size(); ++t) for (size_t k : taken[t]) { slot_owner.erase(ids[k].value); box->finish_released(ids[k]); }
+  for (auto& hs : holders) for (auto& H : hs) { expect_finish(H); H.a.reset(); }      // all accessors die
   bool onewin = true;
   for (size_t k = 0; k < ids.size(); ++k) if (wins[k] > 1 || (attempts[k] >= 1 && wins[k] != 1)) onewin = false;
   std::vector<VersionedValue<uint32_t>> stale = ids;
@@ -185,9 +232,20 @@ static void run_box(const char* cid, unsigned long long seed, int strategy, cons
     if (p) box->finish_released(id);
     stale.push_back(id);
   }
-  if (box->_slot_id_allocator.end() != end0 && end0 > 0) dup = dup;  // (no constraint: end may not grow, checked by AL cases)
-  printf("%s ok steps=%llu | %s | unique=%d foreach=%d onewin=%d stale=%d payload=%d\n", cid, (unsigned long long)r.steps,
-         out.c_str(), !dup, foreach_ok, onewin, stale_ok, payload_ok);
+  // everything has been taken and finished exactly once: nothing may be reported live, and the free list gives back
+  // exactly end values, all different, before anything new is minted
+  bool reuse_ok = true;
+  {
+    std::set<uint32_t> live2; if (!collect_live<IdAllocator<uint32_t>, uint32_t>(box->_slot_id_allocator, live2) || !live2.empty()) foreach_ok = false;
+    uint32_t end1 = box->_slot_id_allocator.end(); std::set<uint32_t> got;
+    for (uint32_t i = 0; i < end1 && i < 100000; ++i) {
+      auto id = box->_slot_id_allocator.allocate();
+      if (id.value >= end1 || box->_slot_id_allocator.end() != end1) { reuse_ok = false; break; }   // a finish was lost
+      if (!got.insert(id.value).second) { dup = true; break; }                                      // a slot finished twice
+    }
+  }
+  printf("%s ok steps=%llu | %s | unique=%d foreach=%d onewin=%d stale=%d payload=%d reuse=%d\n", cid, (unsigned long long)r.steps,
+         out.c_str(), !dup, foreach_ok, onewin, stale_ok, payload_ok, reuse_ok);
   fflush(stdout);
   // Box has no public destructor either; leak it (one per case).
 }
